@@ -1051,7 +1051,11 @@ class dictable(Dict):
         dictable.
 
         """
-        return self.concat([row.pop(grp)(**row.do(lambda v: [v])) for row in self])
+        def _ungroup(row):
+            res = row.pop(grp).copy()
+            res.update(row.do(lambda v: [v])) ## not res(**row): a key column named 'self' is a column, not the parameter of __call__
+            return res
+        return self.concat([_ungroup(row) for row in self])
         
     
     def join(self, other, lcols = None, rcols = None, mode = None):
